@@ -46,6 +46,10 @@ def run_shard(mod, mon: Monitor, tier: str, seed: int, shard: int, nshards: int)
         mod.run(mon, tier, seed, shard, nshards)
     except Exception as e:  # harness failure -> inconclusive
         mon.error("harness", e)
+    from . import gen
+
+    if gen.WARM["views"]:
+        mon.obs["geoboxes_handed_over_as_resized_views_of_used_parents"] += gen.WARM["views"]
 
 
 def suite_under_monitor(pid: str, mon: Monitor) -> None:
